@@ -198,7 +198,11 @@ func (p *Peer) reader() {
 			}
 			if idx < 0 {
 				if m.Type == wire.Rlerror {
-					idx = 0
+					// Several requests under one tag only occur when a check
+					// sends a frame the receiver rejects on arrival under a tag
+					// that is in flight: the rejection comes first, the frame
+					// was sent last.
+					idx = len(ts) - 1
 				} else {
 					idx = 0
 					p.mon = append(p.mon, fmt.Sprintf("reply-stream:wrong-reply-type got=%s for=%s", wire.TypeName(m.Type), wire.TypeName(ts[0])))
